@@ -326,9 +326,9 @@ def extra_stage(tier, rng, work):
     request counts are zero when traffic has ended"""
     if tier == "thorough":
         cfgs = [(rng.randrange(1, 10 ** 6), mx, 0, 40, 0, 0, "k", 1) for mx in (2, 5, 8)] + \
-               [(rng.randrange(1, 10 ** 6), 5, 0, 24, 0, 0, "k0_1_4_18_16_13", 1)]
+               [(rng.randrange(1, 10 ** 6), 5, 0, 24, 0, 0, "k0_1_4_18_16_13_7_19", 1)]
     else:
-        cfgs = [(rng.randrange(1, 10 ** 6), 5, 0, 10, 0, 0, "k0_1_4_18_16_13_8", 0)]
+        cfgs = [(rng.randrange(1, 10 ** 6), 5, 0, 10, 0, 0, "k0_1_4_18_16_13_8_7_19", 0)]
     cases = [Case("bb%d" % i, [["bb"] + list(c)], {}) for i, c in enumerate(cfgs)]
     outs, problems = vlib.run_harness(HARNESS_BIN, cases, os.path.join(work, "bb"), "release", timeout=1200, shards=len(cases))
     viols, fails, done = [], list(problems), 0
